@@ -29,7 +29,7 @@ def plan(tier, seed):
 
 
 def floors(tier):
-    return {"evaluations": 400, "strata": ["recompute", "stale-nodes", "permutation", "option-change", "second-label-set"],
+    return {"evaluations": 400, "strata": ["recompute", "stale-nodes", "permutation", "option-change", "second-label-set", "subset-of-earlier-set"],
             "events": {"Force.compute": 1500}, "distinct_nontrivial": 200}
 
 
@@ -78,8 +78,12 @@ def gen_history(rng):
         elif r < 0.6:
             ops.append(["set_options", rng.choice(OPTION_DELTAS)])
             ops.append(["compute"])
-        elif r < 0.8:
+        elif r < 0.7:
             ops.append(["nodes", rng.choice(["A", "B"]), rng.choice(["fresh", "stale", "permuted", "same-objects"])])
+            ops.append(["compute"])
+        elif r < 0.8:
+            # a sub-multiset of A, as the very objects that were laid out as part of A before
+            ops.append(["nodes", "A-sub", "same-objects"])
             ops.append(["compute"])
         else:
             ops.append(["permute-in-place"])
@@ -94,7 +98,7 @@ def run_history(ctx, mon, h):
     from labella.force import Force
 
     prng = random.Random(h["perm_seed"])
-    sets = {"A": h["labelsA"], "B": h["labelsB"]}
+    sets = {"A": h["labelsA"], "B": h["labelsB"], "A-sub": h["labelsA"][::2]}
     objs = {}  # set name -> last node objects used
     acc = dict(h["options"])
     f = Force(dict(h["options"]))
@@ -108,7 +112,13 @@ def run_history(ctx, mon, h):
             if op[0] == "nodes":
                 name, mode = op[1], op[2]
                 labels = sets[name]
-                if mode == "same-objects" and name in objs:
+                if name == "A-sub" and "A" in objs:
+                    # objects of A in A's construction order: every other one
+                    byid = {nd.data[1]: nd for nd in objs["A"]}
+                    nodes = [byid[i] for i in range(0, len(h["labelsA"]), 2)]
+                    feats.add("stale-nodes")
+                    feats.add("subset-of-earlier-set")
+                elif mode == "same-objects" and name in objs:
                     nodes = objs[name]
                     feats.add("stale-nodes")
                 else:
